@@ -17,7 +17,7 @@ const ATTRS: [u32; 7] = [0, 0x10, 0x01, 0o100644 << 16, 0o040755 << 16 | 0x10, 0
 const TIMES: [(u16, u16); 3] = [(0, 0), (0x5821, 0x6000), (0xffff, 0xffff)];
 
 /// per-entry knob radices
-const RAD: [u64; 10] = [5, 5, 8, 2, 2, 3, 3, 3, 7, 3];
+const RAD: [u64; 10] = [5, 5, 16, 2, 2, 3, 3, 3, 7, 3];
 
 fn digits(mut i: u64, radices: &[u64]) -> Vec<usize> {
     let mut out = vec![0; radices.len()];
@@ -325,7 +325,7 @@ pub fn run(args: &Args) -> i32 {
     let thorough = args.tier.thorough();
     ctx.rule = "E-PROD over the independent builder's knob product. One-entry archives: method {stored,deflate,bzip2,zstd,14} x data descriptor {none, sig32, nosig32, sig64, nosig64} \
         x all 8 ZIP64 central-field subsets x ZIP64 block before/after other blocks x local-extra {none, unknown block} x central-extra {none, 1, 2 blocks} x file comment {none, ASCII, high bytes} \
-        x made-by {DOS, Unix, NTFS} x 7 attribute values x 3 DOS time words = 226 800 entries, each under 4 (thorough: 48) archive-level variants (prefix junk 0/1/1000/65536, comment 0/1/1000, \
+        x made-by {DOS, Unix, NTFS} x 7 attribute values x 3 DOS time words = 453 600 entries (ZIP64 subsets include the disk start number as fourth block field), each under 4 (thorough: 48) archive-level variants (prefix junk 0/1/1000/65536, comment 0/1/1000, \
         trailing garbage 0/1/500 without ZIP64 records, forced ZIP64 end records). Comment + trailing-garbage lengths at the edge of the 65 557-byte end-record window (9 splits of 65 513..65 535 bytes x 9 archives x prefix). Two- and three-entry archives over an 8-entry reduced alphabet with duplicate names, reordered central directory \
         and gaps. Second producer: CPython zipfile (stored/deflate/bzip2/lzma x force_zip64 x comments x directories). distinct_nontrivial = distinct archive byte strings (hash set)."
         .into();
@@ -412,6 +412,30 @@ pub fn run(args: &Args) -> i32 {
     });
     ctx.stats.merge(s);
     ctx.bound("window_edge_comment_plus_garbage", json!(edge));
+    // every length of prepended data 0..=8300 (quick) / 0..=65 600 (thorough), and the neighbours of 16 Ki, 32 Ki, 64 Ki:
+    // buffer-sized scans for the end records must not depend on where a signature falls
+    {
+        let mut lens: Vec<usize> = (0..=if thorough { 65_600 } else { 8_300 }).collect();
+        if !thorough {
+            lens.extend([12_287, 12_288, 12_289, 16_381, 16_382, 16_383, 16_384, 16_385, 32_765, 32_766, 32_767, 32_768, 32_769, 65_533, 65_534, 65_535, 65_536, 65_537, 65_540]);
+        }
+        let bases: Vec<Spec> = vec![
+            Spec { entries: vec![red[1].clone()], force_zip64_eocd: true, ..Default::default() },
+            Spec { entries: vec![ESpec { zip64_central: 7, zip64_local: true, ..red[0].clone() }, red[2].clone()], force_zip64_eocd: true, comment: b"cm".to_vec(), ..Default::default() },
+            Spec { entries: vec![red[0].clone(), red[3].clone()], comment: b"plain".to_vec(), ..Default::default() },
+        ];
+        let (lens_r, bases_r) = (&lens, &bases);
+        let s = par_for((lens.len() * bases.len()) as u64, 16, |i, st| {
+            let i = i as usize;
+            let mut spec = bases_r[i % bases_r.len()].clone();
+            spec.prefix = vec![0x5a; lens_r[i / bases_r.len()]];
+            let (bytes, lay) = build(&spec);
+            check_archive(&spec, &bytes, &lay, st, (8 << 40) + i as u64, "prefix-sweep");
+        });
+        ctx.stats.merge(s);
+        ctx.bound("prefix_length_sweep", json!({"lengths": if thorough { "every length 0..=65600".to_string() } else { "every length 0..=8300 and the neighbours of 12 Ki, 16 Ki, 32 Ki, 64 Ki".to_string() },
+            "archives": ["one entry + forced ZIP64 end records", "two entries (one with all ZIP64 fields) + forced ZIP64 end records + comment", "two entries + comment, no ZIP64"]}));
+    }
     // maximal variable-length fields and a larger entry count
     {
         let big_name: Vec<u8> = (0..65535usize).map(|i| b"abcdefghij/"[i % 11]).collect();
